@@ -452,7 +452,8 @@ func Field() *Set {
 		if l.IsConst() {
 			t = sym.Const(sym.Fp, l.C)
 		} else {
-			t = sym.App(sym.Fp, "fp_of_u64", l)
+			// the element whose saturated limbs are (l, 0, 0, 0): the same term the code layer builds from the limb array
+			t = sym.App(sym.Fp, "of_limbs:"+sym.Fp.String(), l, sym.ConstI(0), sym.ConstI(0), sym.ConstI(0))
 		}
 		return ex.AllocAbs(ElementType, FieldPkg, "Element", t), true
 	})
